@@ -70,6 +70,26 @@ CHECKS = {
    "Generated histories of submissions (fresh, children/grandchildren incl. two pooled parents, conflicting, duplicates, aggregates of pooled transactions, below minimum fee incl. fee shift, over weight, stem and fluff), blocks carrying arbitrary subsets of pool transactions or conflicting spends, mining from prepare_mineable_transactions, winning and losing forks and small capacities that force eviction. After every operation: no two pooled transactions share an input, each input is unspent at the head (replay model) or created in the pool, the aggregate of the public pool and of public+stem validates and passes Chain::validate_tx, each pooled transaction pays the minimum fee for its weight, respects the weight limit and validates alone; the block built from the mineable set is within the weight limit and accepted by the chain. Sampled exploration.",
    "accept_fee_base 1000 and AutomatedTesting limits; the pool is reconciled exactly as servers/src/common/adapters.rs does.",
    "DESIGN.md §5 C14"),
+ "C08": ("pbt", "exploration",
+   "model-based stateful proptest over the store's PMMRBackend driven through the real caller's unit-of-work protocol, against an unpruned reference MMR; chain-level compaction differential",
+   "Generated histories of units of work (optional rewind to an earlier boundary, appends and removals in shaped spend patterns — sibling pairs, whole subtrees, whole peaks, alternating leaves, re-added leaves — then sync or discard) interleaved with check_compact at earlier boundaries and reopen (incl. rebuilding a missing size file), on a fixed-size prunable and a variable-size non-prunable backend. After every unit, compaction and reopen: root, size, peaks, data and hash of every live leaf, every Merkle path (must equal the reference path and verify against the reference root), None for removed leaves, the unspent-leaf set and PMMR::validate are compared with an unpruned reference built with the harness's own hashing. Chain level: compaction of a 90-block chain leaves head, roots, the full unspent scan and validate(false) unchanged and an in-horizon fork is still accepted. Sampled exploration.",
+   "The usage protocol is the real caller's (Extension in txhashset.rs): rewind first in a unit, per-block rewind bitmaps, compaction cutoffs never decrease, no rewind below a compaction cutoff (horizon rule).",
+   "DESIGN.md §5 C08"),
+ "C15": ("pbt", "exploration",
+   "model-based stateful proptest at extension level (several 1024-bit chunks) and chain level against a from-scratch reference bitmap MMR; forged-bitmap blocks",
+   "Extension level: histories of apply / rewind / reopen through the unit-of-work API the block pipeline uses, with synthetic blocks creating up to several thousand outputs (several chunks), spends concentrated in old chunks, at chunk boundaries, whole chunks, the last partial chunk, everything from a chunk on, and rewinds that shrink the output set across a chunk boundary; after every step the bitmap root inside the extension and as committed equals the root computed from scratch from the reference unspent index set with the harness's own MMR. Chain level: real mined blocks with forks, reorgs and reopen; committed root vs. from scratch over the replay model; each header's output_root equals H(size|pmmr_root|reference bitmap root); blocks committing to a wrong bitmap (bit dropped, bit added, extra chunk, empty) are rejected. Sampled exploration.",
+   "Leaf indices of outputs are read from grin's output_pos index (checked by C02). Synthetic blocks use dummy range proofs (that path does not verify them) and mainnet size limits so that 1000-output blocks can be read back; every synthetic block creates at least one output, as every real block does.",
+   "DESIGN.md §5 C15"),
+ "C18": ("pbt", "exploration",
+   "model-based stateful proptest of nested LMDB batches against a nested-transaction map model; seeded concurrent plans with generation-stamped batches across automatic map resizes; crash-point enumeration around Batch::commit",
+   "seq: generated sequences of batch / child (3 levels) / put / delete / get / exists / iter / commit / drop, reads through the Store while a batch is open, iterators held across later operations, and reopen, compared with a stack-of-overlays map model. conc: writer threads commit generation-stamped batches (some dropped, some with committed or dropped children) until the map has grown several times while readers take iterator snapshots and one thread holds an iterator across a resize: no partial batch, no lost generation, no error. crash: every crash point around commits of generated batch trees is enumerated; content after reopen is exactly pre- or post-batch. Schedules are sampled, not controlled.",
+   "Per-batch volume stays far below the headroom guaranteed by the resize threshold (maybe_resize runs only when a batch is opened — the real callers' precondition). Thread interleavings are sampled by repetition.",
+   "DESIGN.md §5 C18"),
+ "C19": ("pbt", "exploration",
+   "proptest message sequences over a loopback socket with generated fragmentation plans (incl. every single split point of short streams), re-encoding round trip; enumerated limit table; scripted handshake peers",
+   "Sequences of real messages (mined headers, blocks and compact blocks, assembled transactions, segment responses cut from PMMRs, header lists of 0..89 items around the batching boundary 32, attachments up to 200 KB, unknown types) at protocol versions 1, 2, 3, 1000 are written through a loopback TCP socket under generated fragmentation (every single split point for short streams, multi-splits, 1-byte dribble, small delays) and must be read by the real Codec as the identical sequence (re-encoded bytes, batch concatenation with correct remaining, attachment bytes). Frames with wrong magic, over-limit lengths or inconsistent header counts are refused after at most the 11 header bytes with no allocation of the announced size (measured in a child process). The real handshake is driven against scripted peers for version negotiation, genesis mismatch and self-connection. Sampled exploration; exhaustive over split points of the short streams.",
+   "Delays stay far inside the I/O timeouts. The length limit asserted is the one the code defines (4x the nominal maximum); the zone between nominal and 4x is recorded, not asserted.",
+   "DESIGN.md §5 C19"),
 }
 
 NOT_YET = {}
